@@ -557,7 +557,11 @@ func EqualModuloInt19(a, b *Node) (equal bool, used bool) {
 			return false, false
 		}
 		if a.Kind == 'I' {
-			return a.Text == t, true
+			// same number, whatever the spelling of the text ("…807e0" is an int64 byte by byte —
+			// exponent zero — and the text "…807e0" from the fast loop)
+			da, ok1 := ParseDec(a.Text)
+			db, ok2 := ParseDec(t)
+			return ok1 && ok2 && da.Equal(db), true
 		}
 		f, _ := strconv.ParseFloat(t, 64)
 		return fmt.Sprintf("%016x", math.Float64bits(f)) == a.Text, true
